@@ -43,16 +43,18 @@ PLAN = {
 RACE_PROPS_BY_MODE = {"xthread", "threads", "tokio"}
 
 
-def _build(check, engine, cfg):
+def _build(check, engine, cfg, mode=""):
     """Returns (ok, binary path or cargo argv prefix, stderr)."""
     harness = check.HARNESS
     env = dict(check.ENV)
+    # the tokio multi-thread mode needs the harness feature `mt` (Send-requiring workload), config A only
     feats = ["--features", "b"] if cfg == "B" else []
+    sfx = ""
     if engine == "native":
         ok, err = check.cargo_build(cfg, bins=("fgv_san",))
         return ok, [check.bin_path(cfg, "fgv_san")], err, env
     if engine == "tsan":
-        tdir = os.path.join(check.TARGET, "tsan-" + cfg.lower())
+        tdir = os.path.join(check.TARGET, "tsan-" + cfg.lower() + sfx)
         env["CARGO_TARGET_DIR"] = tdir
         env["RUSTFLAGS"] = "-Zsanitizer=thread"
         cmd = ["cargo", "+nightly", "build", "--offline", "-Zbuild-std", "--target", "x86_64-unknown-linux-gnu", "--release", "--bin", "fgv_san"] + feats
@@ -61,7 +63,7 @@ def _build(check, engine, cfg):
         runenv["TSAN_OPTIONS"] = "halt_on_error=1 exitcode=66"
         return p.returncode == 0, [os.path.join(tdir, "x86_64-unknown-linux-gnu", "release", "fgv_san")], p.stderr, runenv
     if engine == "miri":
-        tdir = os.path.join(check.TARGET, "miri-" + cfg.lower())
+        tdir = os.path.join(check.TARGET, "miri-" + cfg.lower() + sfx)
         env["CARGO_TARGET_DIR"] = tdir
         env["MIRIFLAGS"] = "-Zmiri-disable-isolation"
         # build once (no run) so that parallel runs do not fight over the target dir lock
@@ -175,10 +177,14 @@ def run(check, prop, seed, jobs):
                 summary[f"callgrind.growth.{cfg}"] = r["summary"]
             continue
         for cfg in cfgs:
-            ok, prefix, err, env = _build(check, engine, cfg)
+            ok, prefix, err, env = _build(check, engine, cfg, mode)
             key = f"{engine}.{mode}.{cfg}"
             if not ok:
-                inconclusive.append(f"{key}: build failed: {err[-1200:]}")
+                if prop == "C19" and re.search(r"cannot be (sent|shared) between threads safely", err):
+                    blk = err[err.find("error"):][:2500]
+                    violations.append({"prop": "C19", "kind": "does-not-compile-send-sync", "config": f"{engine}-{cfg}", "detail": f"the workload that moves the returned values across threads does not compile: {blk}", "case": f"cfg={cfg}", "log": ""})
+                else:
+                    inconclusive.append(f"{key}: build failed: {err[-1200:]}")
                 continue
 
             def one(i):
